@@ -1409,15 +1409,17 @@ def rs_zeta(ctx, s, derivative=0, **kwargs):
     prec = ctx.prec
     try:
         if critical_line:
-            return zeta_half(ctx, s, derivative)
+            v = zeta_half(ctx, s, derivative)
         else:
-            return zeta_offline(ctx, s, derivative)
+            v = zeta_offline(ctx, s, derivative)
     except OverflowError:
         # (the error estimates are made with floats, which cannot hold
         # 9**sigma far from the critical line: the callers fall back)
         raise NotImplementedError("Riemann-Siegel can not compute with such sigma")
     finally:
         ctx.prec = prec
+    # (the value was computed with guard bits)
+    return +v
 
 @defun
 def rs_z(ctx, w, derivative=0):
@@ -1429,10 +1431,11 @@ def rs_z(ctx, w, derivative=0):
     prec = ctx.prec
     try:
         if critical_line :
-            return z_half(ctx, w, derivative)
+            v = z_half(ctx, w, derivative)
         else:
-            return z_offline(ctx, w, derivative)
+            v = z_offline(ctx, w, derivative)
     except OverflowError:
         raise NotImplementedError("Riemann-Siegel can not compute with such sigma")
     finally:
         ctx.prec = prec
+    return +v
